@@ -246,7 +246,21 @@ func rejectClass(pub, sig []byte) string {
 	return "equation"
 }
 
+// warm: the verifier has accepted an honest signature (fixed key) over this very message just
+// before every case: nothing it may remember of that may decide the case.
+var (
+	warmOnce sync.Once
+	warmPriv stded.PrivateKey
+)
+
+func warm(msg []byte) {
+	warmOnce.Do(func() { warmPriv = stded.NewKeyFromSeed(bytes.Repeat([]byte{0x17}, 32)) })
+	sig := stded.Sign(warmPriv, msg)
+	_ = mc.Catch(func() { ed.Verify(ed.PublicKey(warmPriv[32:]), msg, sig) })
+}
+
 func checkVerify(pub, msg, sig []byte) (*mc.Viol, string, bool) {
+	warm(msg)
 	var got bool
 	pn := mc.Catch(func() { got = ed.Verify(ed.PublicKey(pub), msg, sig) })
 	cls := rejectClass(pub, sig)
